@@ -166,11 +166,21 @@ def post_ref(ctx, fn, oracle, max_n):
         if _size(args) > max_n * SCALE:
             ctx.count("skipped_large")
             return
-        if fn.startswith("pattern.") and not symbolic_ref.pattern_inputs_are_point_sets(
-                args[0], args[1]):
+        try:
+            skip_pat = fn.startswith("pattern.") and not \
+                symbolic_ref.pattern_inputs_are_point_sets(args[0], args[1])
+            ambiguous_key = fn == "key.weighted_score" and not \
+                symbolic_ref.key_is_unambiguous(*args[:2])
+        except Exception:  # noqa: BLE001 - malformed input (the repo's own fault tests)
+            ctx.count("input_not_classifiable(not judged)")
+            return
+        if skip_pat:
             ctx.count("skipped_pattern_not_point_set")
             return
-        if fn == "key.weighted_score" and not symbolic_ref.key_is_unambiguous(*args[:2]):
+        if ambiguous_key:
+            if raised is not None:
+                ctx.count("library_rejected_input(C14)")
+                return
             ctx.count("key.other_mode_rows_not_judged")
             # unambiguous rows only: identical -> 1, X vs non-X -> 0, value in table
             v = float(call.result)
